@@ -408,6 +408,67 @@ def stat_runs(seed, tier):
                 S.frames.clear()
         lo, hi = binom_interval(n2, 1.0 / rate)
         out.append({"rate": rate, "n": n2, "traced": cnt[0], "lo": lo, "hi": hi, "code_filter": False})
+    # several tracing blocks entered through monkeytype.trace(config) with ONE config object whose sample_rate() answer
+    # changes between blocks, and many very short blocks (a per-block effect - a restarted sequence of draws, a rate read
+    # once and remembered - shows here and not in one long block)
+    import monkeytype
+    from monkeytype.config import Config
+
+    class Counting:
+        n = 0
+
+        def log(self, t):
+            Counting.n += 1
+
+        def flush(self):
+            pass
+
+    class Cfg(Config):
+        rate = None
+
+        def trace_store(self):
+            raise NotImplementedError
+
+        def trace_logger(self):
+            return Counting()
+
+        def code_filter(self):
+            return lambda code: code.co_filename == env["traced_path"]
+
+        def sample_rate(self):
+            return Cfg.rate
+    from mtfx import script as _script
+    S = _script.S
+    f = env["M"].f_mod
+
+    def call_f(times):
+        for _ in range(times):
+            S.actions, S.pos = [{"op": "Return", "how": "expr", "val": 1, "id": None}], 0
+            S._pending_entry = {"ev": "Call", "f": "f_mod", "kind": "plain", "wanted": True, "caller": 0, "catch": True, "args": []}
+            f(1)
+            S.events.clear()
+            S.keep.clear()
+            S.frames.clear()
+    cfg = Cfg()
+    S.reset([], {}, absmodel.abs_value)
+    nb = 2000 if tier == "quick" else 20000
+    for rate, calls in ((50, nb), (None, 300), (1, 300), (4, nb), (None, 200), (2, nb)):
+        Cfg.rate, Counting.n = rate, 0
+        with monkeytype.trace(cfg):
+            call_f(calls)
+        p = 1.0 if not rate or rate == 1 else 1.0 / rate
+        lo, hi = (calls, calls) if p == 1.0 else binom_interval(calls, p)
+        out.append({"rate": rate or 0, "n": calls, "traced": Counting.n, "lo": lo, "hi": hi, "code_filter": True,
+                    "program": "one config object reused for consecutive monkeytype.trace(config) blocks"})
+    for rate in (4, 10):
+        Cfg.rate, Counting.n = rate, 0
+        blocks = 400 if tier == "quick" else 4000
+        for _ in range(blocks):
+            with monkeytype.trace(cfg):
+                call_f(3)
+        lo, hi = binom_interval(3 * blocks, 1.0 / rate)
+        out.append({"rate": rate, "n": 3 * blocks, "traced": Counting.n, "lo": lo, "hi": hi, "code_filter": True,
+                    "program": "%d tracing blocks of 3 calls each" % blocks})
     # many functions, each called only a few times (a per-function effect - first call, warm-up - shows here and not in a
     # hot loop over one function)
     nf, reps = (400, 2) if tier == "quick" else (4000, 3)
@@ -528,7 +589,8 @@ def main(pid, tier, seed, replay=None):
         end = r["events"][-1]
         if end.get("err", "NONE") != "NONE":
             run.violation({"clause": "Escaped", "err": end["err"]}, {k: sc_by_tid[r["tid"]][k] for k in ("hist", "rate", "k", "seed")})
-        if r["tid"] in preds and drifted(r, preds[r["tid"]]):
+        # (a scenario whose filter rejects the twin module has no model counterpart: the model's functions are all admitted)
+        if r["tid"] in preds and not sc_by_tid[r["tid"]].get("twin_rejected") and drifted(r, preds[r["tid"]]):
             run.drift += 1
     nthrow = sum(1 for s in scs if any(h["op"] == "Throw" for h in s["hist"]))
     nt = {json.dumps([[h["op"], h["f"], h["id"], h["v"], h["catch"], h["draw"]] for h in s["hist"]]) + str(s["rate"])
